@@ -1011,8 +1011,8 @@ func (w *world) consumerSeq(out *c.Out, seq int, r *c.Rng) {
 					sig = fmt.Sprintf("%s|%s|%s|spot=%s|liq=%s|same=%v|ctl=%s|drop=%v", a.name, cls, kind, howStr(ct.spot), howStr(ct.liq), ct.spot == ct.liq, ctl, drop)
 				}
 				out.Case(sig, "c18.gate.cdp", a.name, c.B(sa), c.B(la), c.B(fs), c.B(fl), c.B(hasCdp && a.name != "create" && cdpNow.Collateral.IsZero()), ctl, "=>", string(cls), kind)
-				if a.name == "draw" && sa && !la && cls == kapp.OK {
-					out.Note("draw-proceeds-on-live-spot-while-liquidation-market-down")
+				if a.name == "draw" && cls != kapp.OK && kind == "price" && sa && !la {
+					out.Note("draw-refused-while-only-liquidation-market-down")
 				}
 				if a.name == "liquidate" && la && !sa && cls == kapp.OK {
 					out.Note("liquidate-proceeds-on-live-liquidation-price-while-spot-down")
